@@ -71,15 +71,65 @@ Definition dcardconstr (s : sx) : option cardconstr :=
   | _ => None
   end.
 
+(* The same problem up to ORDER: the units as a multiset, the constraints as a multiset of (degree, weighted or not,
+   multiset of (literal, weight) pairs).  Which literal comes first in a stored constraint and which constraint comes
+   first in the list are choices of the simplifier (swap-with-last removal today) that no property speaks of: a rewrite
+   that compacts in order builds the same problem in this sense.  The exact comparison is tried first; a problem that is
+   the same only up to order is accepted with the code 9 in front (counted in the evidence, not a failure). *)
+Fixpoint ins_Z23 (x : Z) (l : list Z) : list Z :=
+  match l with
+  | [] => [x]
+  | y :: r => if x <=? y then x :: l else y :: ins_Z23 x r
+  end.
+Definition sort_Z23 (l : list Z) : list Z := fold_right ins_Z23 [] l.
+
+Definition pair_leb (x y : Z * Z) : bool := (fst x <? fst y) || ((fst x =? fst y) && (snd x <=? snd y)).
+Fixpoint ins_Zp (x : Z * Z) (l : list (Z * Z)) : list (Z * Z) :=
+  match l with
+  | [] => [x]
+  | y :: r => if pair_leb x y then x :: l else y :: ins_Zp x r
+  end.
+Definition sort_Zp (l : list (Z * Z)) : list (Z * Z) := fold_right ins_Zp [] l.
+
+Definition canon_clause (c : gclause) : list Z :=
+  let ws := match gc_weights c with Some w => w | None => map (fun _ => 1) (gc_lits c) end in
+  gc_card c :: (match gc_weights c with Some _ => 1 | None => 0 end)
+    :: flat_map (fun p => [fst p; snd p]) (sort_Zp (combine (gc_lits c) ws)).
+
+Fixpoint lex_leb (a b : list Z) : bool :=
+  match a, b with
+  | [], _ => true
+  | _ :: _, [] => false
+  | x :: a', y :: b' => (x <? y) || ((x =? y) && lex_leb a' b')
+  end.
+Fixpoint ins_L (x : list Z) (l : list (list Z)) : list (list Z) :=
+  match l with
+  | [] => [x]
+  | y :: r => if lex_leb x y then x :: l else y :: ins_L x r
+  end.
+Definition sort_L (l : list (list Z)) : list (list Z) := fold_right ins_L [] l.
+
+Fixpoint eqZss (a b : list (list Z)) : bool :=
+  match a, b with
+  | [], [] => true
+  | x :: a', y :: b' => eqZs x y && eqZss a' b'
+  | _, _ => false
+  end.
+
+Definition same_up_to_order (g : gproblem) (units : list Z) (cls : list gclause) : bool :=
+  eqZs (sort_Z23 (gp_units g)) (sort_Z23 units) &&
+  eqZss (sort_L (map canon_clause (gp_clauses g))) (sort_L (map canon_clause cls)).
+
 (* which field differs first: 1 nbvars 2 status 3 units 4 model 5 clauses *)
 Definition compare_problem (g : gproblem) (nb stc : Z) (units md : list Z) (cls : list gclause) : verdict :=
   if negb (gp_nbvars g =? nb) then Fail "differs-from-model" [1; gp_nbvars g; nb]
   else if negb (st_code (gp_status g) =? stc) then Fail "differs-from-model" [2; st_code (gp_status g); stc]
   else if stc =? 2 then Ok [2; nb; 0]
-  else if negb (eqZs (gp_units g) units) then Fail "differs-from-model" [3]
   else if negb (eqZs (gp_model g) md) then Fail "differs-from-model" [4]
-  else if negb (eq_gclauses (gp_clauses g) cls) then Fail "differs-from-model" [5; Z.of_nat (List.length (gp_clauses g)); Z.of_nat (List.length cls)]
-  else Ok [stc; nb; Z.of_nat (List.length cls)].
+  else if eqZs (gp_units g) units && eq_gclauses (gp_clauses g) cls then Ok [stc; nb; Z.of_nat (List.length cls)]
+  else if same_up_to_order g units cls then Ok [9; stc; nb; Z.of_nat (List.length cls)]
+  else if negb (eqZs (sort_Z23 (gp_units g)) (sort_Z23 units)) then Fail "differs-from-model" [3]
+  else Fail "differs-from-model" [5; Z.of_nat (List.length (gp_clauses g)); Z.of_nat (List.length cls)].
 
 (* a constructor call and its results: (rel rhs (lit ...) (weight ...) (pbconstr ...)) *)
 Definition ctor_ok (s : sx) : option bool :=
